@@ -697,6 +697,42 @@ pub fn build_footer(xorb_hash: &RH, chunk_hashes: &[RH], boundaries: &[u32], unp
     o
 }
 
+/// A layout-1 footer whose sections need not agree with each other: the hash section announces `n_hashes_field`
+/// and holds `chunk_hashes`, the boundary section announces `n_bounds_field` and holds `boundaries` and `unpacked`,
+/// the trailing count is `n_trailing`; the two offsets-from-the-end and the length trailer are computed for the bytes
+/// actually written, so nothing but the counts is inconsistent.
+pub fn build_footer_v1_parts(xorb_hash: &RH, chunk_hashes: &[RH], n_hashes_field: u32, boundaries: &[u32], unpacked: &[u32], n_bounds_field: u32, n_trailing: u32) -> Vec<u8> {
+    let mut o = Vec::new();
+    o.extend_from_slice(FOOTER_IDENT);
+    o.push(1);
+    o.extend_from_slice(xorb_hash);
+    let hs = o.len();
+    o.extend_from_slice(FOOTER_IDENT_HASHES);
+    o.push(0);
+    o.extend_from_slice(&n_hashes_field.to_le_bytes());
+    for h in chunk_hashes {
+        o.extend_from_slice(h);
+    }
+    let bs = o.len();
+    o.extend_from_slice(FOOTER_IDENT_BOUNDARIES);
+    o.push(1);
+    o.extend_from_slice(&n_bounds_field.to_le_bytes());
+    for b in boundaries {
+        o.extend_from_slice(&b.to_le_bytes());
+    }
+    for u in unpacked {
+        o.extend_from_slice(&u.to_le_bytes());
+    }
+    o.extend_from_slice(&n_trailing.to_le_bytes());
+    let end = o.len() + 4 + 4 + 16;
+    o.extend_from_slice(&((end - hs) as u32).to_le_bytes());
+    o.extend_from_slice(&((end - bs) as u32).to_le_bytes());
+    o.extend_from_slice(&[0u8; 16]);
+    let il = o.len() as u32;
+    o.extend_from_slice(&il.to_le_bytes());
+    o
+}
+
 /// Splits a serialized xorb into (frame region, footer bytes) using the trailing u32 info length.
 pub fn split_xorb(buf: &[u8]) -> Result<(&[u8], &[u8]), String> {
     if buf.len() < 4 {
